@@ -1662,6 +1662,9 @@ class AttrParser(BaseParser):
                 "u": Signedness.UNSIGNED,
                 "i": Signedness.SIGNLESS,
             }
+            # Same limit as MLIR (and keeps value ranges computable)
+            if len(match.group(1)) > 8 or int(match.group(1)) > 16777215:
+                self.raise_error("Integer bitwidth is limited to 16777215 bits")
             self._consume_token()
             return IntegerType(int(match.group(1)), signedness[name[0]])
 
